@@ -222,6 +222,9 @@ type BlockBuilder struct {
 	// claim start is then exactly the parent ledger's revenue)
 	ephSF    []ephSFOut
 	taxMoved bool
+	// v1 contracts formed by transactions built or absorbed so far (a v1
+	// revision may follow its formation inside one block / one pool)
+	ephFC []types.FileContractElement
 	usedWE   map[uint64]bool
 	serial   int
 	onlyFC   *types.FileContractID
@@ -389,6 +392,12 @@ func (bb *BlockBuilder) addV1(txn types.Transaction, kind string) {
 	if len(txn.FileContracts) > 0 {
 		bb.taxMoved = true
 	}
+	for i, fc := range txn.FileContracts {
+		bb.ephFC = append(bb.ephFC, types.FileContractElement{ID: txn.FileContractID(i), FileContract: fc})
+	}
+	for _, fcr := range txn.FileContractRevisions {
+		bb.usedFC[fcr.ParentID] = true
+	}
 	bb.Txns = append(bb.Txns, txn)
 	bb.TxnKinds = append(bb.TxnKinds, kind)
 }
@@ -485,7 +494,16 @@ func (bb *BlockBuilder) Add(in Intent) bool {
 			ops []string
 		}
 		var cands []cand
-		if bb.v1Allowed() {
+		if bb.v1Allowed() && in.Eph {
+			// a contract formed earlier in this block (or pool): only a revision
+			// can follow its formation at the same height
+			for _, e := range bb.ephFC {
+				if !bb.usedFC[e.ID] && ActorOf(e.FileContract.UnlockHash) >= 0 {
+					cands = append(cands, cand{e.ID, []string{"v1rev"}})
+				}
+			}
+		}
+		if bb.v1Allowed() && len(cands) == 0 {
 			for _, id := range bb.L.SortedFCIDs() {
 				e := bb.L.FCE[id]
 				if bb.usedFC[id] {
@@ -744,6 +762,20 @@ func (bb *BlockBuilder) Add(in Intent) bool {
 				c = append(c, e)
 			}
 		}
+		if in.Eph || bb.onlyFC != nil {
+			var ec []types.FileContractElement
+			for _, e := range bb.ephFC {
+				if bb.onlyFC != nil && *bb.onlyFC != e.ID {
+					continue
+				}
+				if !bb.usedFC[e.ID] && ActorOf(e.FileContract.UnlockHash) >= 0 {
+					ec = append(ec, e)
+				}
+			}
+			if len(ec) > 0 {
+				c = ec
+			}
+		}
 		if len(c) == 0 {
 			bb.skip(in, "no-contract")
 			return false
@@ -777,6 +809,10 @@ func (bb *BlockBuilder) Add(in Intent) bool {
 		txn := types.Transaction{FileContractRevisions: []types.FileContractRevision{{ParentID: e.ID, UnlockConditions: Actors[owner].UC, FileContract: rev}}}
 		signV1(cs, &txn, map[types.Hash256]int{types.Hash256(e.ID): owner})
 		bb.usedFC[e.ID] = true
+		if _, confirmed := bb.L.FCE[e.ID]; !confirmed {
+			bb.addV1(txn, "v1rev-eph")
+			return true
+		}
 		bb.addV1(txn, in.Kind)
 		return true
 
@@ -1206,6 +1242,9 @@ func (bb *BlockBuilder) Absorb(txns []types.Transaction, v2txns []types.V2Transa
 		if len(txn.FileContracts) > 0 {
 			bb.taxMoved = true
 		}
+		for i, fc := range txn.FileContracts {
+			bb.ephFC = append(bb.ephFC, types.FileContractElement{ID: txn.FileContractID(i), FileContract: fc})
+		}
 		for i, o := range txn.SiacoinOutputs {
 			bb.eph = append(bb.eph, ephOut{txn.SiacoinOutputID(i), o, ActorOf(o.Address), false})
 		}
@@ -1256,7 +1295,7 @@ func (bb *BlockBuilder) Reset() {
 
 // DropEphemeral forgets the ephemeral outputs absorbed so far (their
 // creating transactions are not part of what is being built).
-func (bb *BlockBuilder) DropEphemeral() { bb.eph, bb.ephSF = nil, nil }
+func (bb *BlockBuilder) DropEphemeral() { bb.eph, bb.ephSF, bb.ephFC = nil, nil, nil }
 
 // V1Spend builds a signed v1 transaction moving the whole element to another actor.
 func V1Spend(cs consensus.State, e types.SiacoinElement, who, to int, tag int) types.Transaction {
